@@ -58,6 +58,8 @@ AuxInit == [rem      |-> [d \in Devs |-> 0],          \* C06: operational time s
             join     |-> <<>>,                        \* C17: routing history of each part when it joined its batch
             inSeq    |-> [d \in Devs |-> <<>>],       \* C17: leaf parts in arrival order
             outSeq   |-> [d \in Devs |-> <<>>],       \* C17: leaf parts in leaving order
+            wo       |-> [d \in Devs |-> <<>>],       \* C13: <<start, duration>> of the work order in progress on d
+            everDown |-> [d \in Devs |-> FALSE],      \* C13: the processor has been down at some time
             disp     |-> <<>>,                        \* C15: dispatched events <<time, device, kind, priority>>
             runEnd   |-> None,                        \* C01: end of the current run
             steps    |-> <<0, 0>>]                    \* C03: <<instant, events dispatched in it>>
@@ -119,6 +121,11 @@ AuxNext(aux, pre, ev, post) ==
      inSeq |-> [d \in Devs |-> IF Kind(d) = "batcher" THEN aux.inSeq[d] \o ArrivedLeaves(pre, ev, d) ELSE <<>>],
      outSeq |-> [d \in Devs |-> IF Kind(d) = "batcher" /\ pre.dev[d].out # 0 /\ post.dev[d].out # pre.dev[d].out
                                 THEN aux.outSeq[d] \o LeavesOf(pre, pre.dev[d].out) ELSE aux.outSeq[d]],
+     wo |-> [d \in Devs |-> IF IsStep(ev) /\ ~ev.cancelled /\ ev.kind = "mstart" /\ ev.arg \div 10 = d
+                             THEN <<post.now, cfg.devs[d].wodur>>
+                             ELSE IF IsStep(ev) /\ ~ev.cancelled /\ ev.kind = "mfinish" /\ ev.arg \div 10 = d THEN <<>>
+                             ELSE aux.wo[d]],
+     everDown |-> [d \in Devs |-> aux.everDown[d] \/ (d \in Procs /\ post.dev[d].down)],
      disp |-> IF cfg.trace /\ IsStep(ev) /\ ~ev.direct THEN Append(aux.disp, <<ev.time, ev.asset, ev.kind, ev.prio>>) ELSE aux.disp,
      runEnd |-> IF ev.op \in {"init", "run_begin"} THEN pre.now + ev.d ELSE aux.runEnd,
      steps |-> IF post.now > pre.now THEN <<post.now, 1>> ELSE <<post.now, aux.steps[2] + (IF IsStep(ev) THEN 1 ELSE 0)>>]
@@ -321,6 +328,14 @@ C13d(pre, ev, post, aux) ==
            \A d \in Procs :
               /\ (ScriptOn(ev, "shutdown", d) /\ pre.dev[d].down) => Untimed(post.dev[d]) = Untimed(pre.dev[d])
               /\ (ScriptOn(ev, "restore", d) /\ ~pre.dev[d].down) => Untimed(post.dev[d]) = Untimed(pre.dev[d]))
+    \cup C("C13.WorkOrderKeepsTargetDown", \A d \in Procs : a1.wo[d] # <<>> => post.dev[d].down)
+    \cup C("C13.WorkOrderLastsExactlyItsDuration",
+           \A d \in Procs : (IsStep(ev) /\ ~ev.cancelled /\ ev.kind = "mfinish" /\ ev.arg \div 10 = d) =>
+                /\ aux.wo[d] # <<>> /\ post.now = aux.wo[d][1] + aux.wo[d][2]
+                /\ ~post.dev[d].down)
+    \cup C("C13.FinishedPartLeavesAfterRestoration",
+           Quiescent(post) => \A d \in Procs : (a1.everDown[d] /\ ReadyItem(post, d) # 0) =>
+                                  \A x \in Range(post.down[d]) : ~WouldTake(post, x, ReadyItem(post, d), 0))
     \cup C("C13.UptimeIsOperationalTime", \A d \in Procs : post.dev[d].up = a1.upAcc[d])
     \cup C("C13.UtilizationIsProcessingTime", \A d \in Procs : post.dev[d].ut = a1.utAcc[d])
 
@@ -373,6 +388,11 @@ C16(pre, ev, post, aux, jpost) ==
     \cup C("C16.SourceValueIsMinusSupplied",
            \A s \in Sources : post.dev[s].cost = a1.cost[s] /\ post.dev[s].value = -a1.cost[s])
     \cup C("C16.SinkValueIsReceived", \A d \in Sinks : post.dev[d].revenue = a1.rev[d] /\ post.dev[d].value = a1.rev[d])
+    \cup C("C16.MaintainerChargedOncePerStartedOrder",
+           IF IsStep(ev) /\ ~ev.cancelled /\ ev.kind = "mstart"
+           THEN LET c == cfg.devs[ev.arg \div 10].wocost IN
+                post.mt.value = pre.mt.value - c /\ post.mt.nvh = pre.mt.nvh + (IF c = 0 THEN 0 ELSE 1)
+           ELSE post.mt.value = pre.mt.value /\ post.mt.nvh = pre.mt.nvh)
     \cup C("C16.BatchIsSumOfParts", \A p \in DOMAIN post.part : post.part[p].batch => post.part[p].value = SumValue(post, post.part[p].leaves, 1))
     \cup C("C16.NetValueIsSumOfAssets", jpost.net = SeqSum([d \in Devs |-> post.dev[d].value]) + jpost.mtvalue)
 
